@@ -126,6 +126,13 @@ def mutate(s, m):
                                                                    "where_arith": "nosuch_a + a1 > 0"}[pos]}]
         elif pos == "rule_left_rel":
             body = "RULE ru FOR (e1);\nWHERE\n  wr : nosuch_a >= SIZEOF(e1);\nEND_RULE;\n"
+        elif pos in ("type_string_width", "type_binary_width", "type_real_precision", "type_aggr_bound"):
+            body = "TYPE tu = %s;\nEND_TYPE;\n" % {"type_string_width": "STRING(nosuch_a)", "type_binary_width": "BINARY(nosuch_a) FIXED",
+                                                  "type_real_precision": "REAL(nosuch_a)", "type_aggr_bound": "LIST [1:nosuch_a] OF INTEGER"}[pos]
+        elif pos in ("attr_string_width", "attr_aggr_bound"):
+            body = "ENTITY eu;\n  item : %s;\nEND_ENTITY;\n" % {"attr_string_width": "STRING(nosuch_a)", "attr_aggr_bound": "ARRAY [nosuch_a:4] OF REAL"}[pos]
+        elif pos == "local_string_width":
+            body = ("FUNCTION fu(p1 : INTEGER) : BOOLEAN;\n  LOCAL\n    v : STRING(nosuch_a);\n  END_LOCAL;\n  RETURN (p1 > 0);\nEND_FUNCTION;\n")
         elif pos == "func_local_left_rel":
             body = ("FUNCTION fu(p1 : INTEGER) : BOOLEAN;\n  LOCAL\n    v : INTEGER := 1;\n  END_LOCAL;\n"
                     "  IF nosuch_a <= v THEN\n    RETURN (TRUE);\n  END_IF;\n  RETURN (p1 > v);\nEND_FUNCTION;\n")
